@@ -40,6 +40,9 @@ func genC10Assign(t *simrt.Tape, sampleTypes []string) string {
 	K := simrt.KGen
 	rx := func() string { return c10Regexps[t.Choose(K, len(c10Regexps))] }
 	trx := func() string { return c10TagRx[t.Choose(K, len(c10TagRx))] }
+	if t.Bool(K, 8) {
+		return []string{"source_path=/home/me/src", "source_path=/other/place/lib", "source_path=", "trim_path=/src", "trim_path=", "source_path=/home/me/src:/other/place/lib", "granularity=files", "files", "lines"}[t.Choose(K, 9)]
+	}
 	if t.Bool(K, 15) {
 		return []string{"relative_percentages", "tagroot=k", "tagroot=tenant", "tagleaf=k", "divide_by=0", "divide_by=1", "tagshow=(", "taghide=[", "tagshow=", "relative_percentages=false"}[t.Choose(K, 10)]
 	}
